@@ -11,7 +11,7 @@
     - every kept statement only reads what is provably the same in both runs, every dropped
       statement only changes what the kept ones never read.
 
-    Variable ROLES are read off the evaluate kernel: [ip] = variables declared [int32_t*],
+    The ROLES of the variables are read off the evaluate kernel: [ip] = variables declared [int32_t*],
     [fp] = declared [double*]; [os]/[v] = the members of [ip]/[fp] that are ever assigned anything
     else than a field of an input tensor parameter (the output's pos/crd arrays, resp. the output
     value pointer and the bucket pointers); [root] = the variable declared from [out->vals]. *)
@@ -376,61 +376,64 @@ Section COMPUTE.
     negb (mem x (r_ip rl)) && negb (mem x (r_fp rl)) && negb (mem x (r_out rl :: r_ins rl)).
 
   (** phases: [false] = the value array of evaluate is not yet allocated, [true] = allocated *)
+  (** [d]: the statement is a declaration with initialiser (otherwise a plain assignment) *)
+  Definition keepC_var (ph : bool) (x : string) (e : expr) (d : bool) : option bool :=
+    if negb (mem x U) && negb (mem x (r_out rl :: r_ins rl)) then
+      if mem x (r_os rl) then
+        (* unpack of an output structure array: never read afterwards by kept statements *)
+        if d && idx_field [r_out rl] e then Some ph else None
+      else if mem x (r_v rl) then
+        if d && vals_field [r_out rl] e && negb ph && String.eqb x (r_root rl)
+        then Some ph
+        else if ph && d && negb (String.eqb x (r_root rl)) &&
+                match e with
+                | Var z => mem z (r_v rl)
+                | Add (Var z) i => mem z (r_v rl) && sexpC false i
+                | _ => false
+                end
+        then Some ph else None
+      else if ins_p x then
+        if d && idx_field (r_ins rl) e then Some ph else None
+      else if inv_p x then
+        if d && vals_field (r_ins rl) e then Some ph else None
+      else if scalar_var x && sexpC false e then Some ph else None
+    else None.
+
   Definition keepC (ph : bool) (s : stmt) : option bool :=
     match s with
-    | DeclarationAssignment (Declaration (Var x) _) e
-    | Assignment (Var x) e =>
-        if negb (mem x U) && negb (mem x (r_out rl :: r_ins rl)) then
-          if mem x (r_os rl) then
-            (* unpack of an output structure array: never read afterwards by kept statements *)
-            if is_DeclarationAssignment s && idx_field [r_out rl] e && mem x (r_ip rl) then Some ph else None
-          else if mem x (r_v rl) then
-            if is_DeclarationAssignment s && vals_field [r_out rl] e && negb ph && String.eqb x (r_root rl)
-            then Some ph
-            else if ph && is_DeclarationAssignment s && negb (String.eqb x (r_root rl)) &&
-                    match e with
-                    | Var z => mem z (r_v rl)
-                    | Add (Var z) i => mem z (r_v rl) && sexpC false i
-                    | _ => false
-                    end
-            then Some ph else None
-          else if ins_p x then
-            if is_DeclarationAssignment s && idx_field (r_ins rl) e then Some ph else None
-          else if inv_p x then
-            if is_DeclarationAssignment s && vals_field (r_ins rl) e then Some ph else None
-          else if scalar_var x && sexpC false e then Some ph else None
-        else None
+    | DeclarationAssignment (Declaration (Var x) _) e => keepC_var ph x e true
+    | Assignment (Var x) e => keepC_var ph x e false
     | Assignment (ArrayIndex (Var y) i) e =>
         if ph && mem y (r_v rl) && sexpC false i && sexpC true e then Some ph else None
     | Return e => if sexpC false e then Some ph else None
     | _ => None
     end.
 
+  Definition dropC_var (ph : bool) (x : string) (e : expr) (d : bool) : option bool :=
+    if mem x (r_out rl :: r_ins rl) then None else
+    match e with
+    | ArrayAllocate t _ =>
+        if d then None else
+        if ty_same t TInteger && mem x (r_os rl) then Some ph
+        else if ty_same t TFloat && String.eqb x (r_root rl) && negb ph then Some true
+        else None
+    | ArrayReallocate (Var y) t _ =>
+        if negb (String.eqb x y) || d then None
+        else if ty_same t TInteger && mem x (r_os rl) then Some ph
+        else if ty_same t TFloat && String.eqb x (r_root rl) && ph then Some true
+        else None
+    | ArrayReallocate _ _ _ => None
+    | _ => if mem x U && scalar_var x then Some ph else None
+    end.
+
   Definition dropC (ph : bool) (s : stmt) : option bool :=
     match s with
-    | DeclarationAssignment (Declaration (Var x) _) e
-    | Assignment (Var x) e =>
-        if mem x (r_out rl :: r_ins rl) then None else
-        match e with
-        | ArrayAllocate t _ =>
-            if ty_same t TInteger && mem x (r_os rl) && negb (mem x (r_fp rl)) then Some ph
-            else if ty_same t TFloat && String.eqb x (r_root rl) && mem x (r_v rl)
-                    && negb (mem x (r_ip rl)) && negb ph then Some true
-            else None
-        | ArrayReallocate (Var y) t _ =>
-            if negb (String.eqb x y) then None
-            else if ty_same t TInteger && mem x (r_os rl) && negb (mem x (r_fp rl)) then Some ph
-            else if ty_same t TFloat && String.eqb x (r_root rl) && mem x (r_v rl)
-                    && negb (mem x (r_ip rl)) && ph then Some true
-            else None
-        | ArrayReallocate _ _ _ => None
-        | _ => if mem x U && scalar_var x then Some ph else None
-        end
+    | DeclarationAssignment (Declaration (Var x) _) e => dropC_var ph x e true
+    | Assignment (Var x) e => dropC_var ph x e false
     | Assignment (ArrayIndex (Var p) _) e =>
-        if mem p (r_os rl) && negb (mem p (r_fp rl)) && negb (is_alloc e) then Some ph else None
-    | Assignment (ArrayIndex (ArrayIndex (AttributeAccess (Var T) a) k) j) (Var p) =>
-        if String.eqb T (r_out rl) && String.eqb a "indices" && is_lit k && is_lit j
-           && mem p (r_os rl) then Some ph else None
+        if mem p (r_os rl) && negb (is_alloc e) then Some ph else None
+    | Assignment (ArrayIndex (ArrayIndex (AttributeAccess (Var T) a) (IntegerLiteral _)) (IntegerLiteral _)) (Var p) =>
+        if String.eqb T (r_out rl) && String.eqb a "indices" && mem p (r_os rl) then Some ph else None
     | Assignment (AttributeAccess (Var T) a) (Var r) =>
         if String.eqb T (r_out rl) && String.eqb a "vals" && String.eqb r (r_root rl) && ph
         then Some ph else None
@@ -453,7 +456,10 @@ Definition compute_cert3 (fe fc : function_definition) : bool :=
       params_ok ps && params_ok qs && same_params ps qs && nodupb (param_names ps)
       && ty_same rt rt'
       && disjointb (r_ip rl) (r_fp rl)
+      && forallb (fun x => mem x (r_ip rl)) (r_os rl)
+      && forallb (fun x => mem x (r_fp rl)) (r_v rl)
       && mem (r_root rl) (r_v rl)
+      && forallb (rdC rl (assigned_only_in fe fc)) (r_out rl :: r_ins rl)
       && alignC rl (assigned_only_in fe fc) be bc
   end.
 
